@@ -75,7 +75,7 @@ pub fn run(ctx: &Ctx, rep: &mut Report) {
             let o = w.do_deploy(&users[dep], &salt, label.as_bytes(), b"SYM", 7, supply, minter, Auth::Only(vec![users[dep].clone()]));
             match o.res {
                 Ok(id) => {
-                    let addr = w.predicted_token_address(&id);
+                    let addr = w.token_addr(&id);
                     if supply > 0 {
                         w.model.add(&addr, &users[dep], supply);
                     }
